@@ -17,7 +17,9 @@ def nontrivial(case, impl, model, oracle):
 CHECK = {
     "property": "C12",
     "props": "Props/C12.v",
-    "theorems": ["c12_ext_rcode_refuted_prefix", "c12_ext_rcode_kept"],
+    "theorems": ["c12_invariant", "c12_limit", "c12_atomic", "c12_names_roundtrip_partial",
+                 "c12_unhinted_names_roundtrip_partial", "c12_exact_is_equal",
+                 "c12_ext_rcode_refuted_prefix", "c12_ext_rcode_kept"],
     "allowed_axioms": [],
     "suites": [{
         "name": "writer",
@@ -55,7 +57,19 @@ CHECK = {
 }
 
 MANIFEST = {
-    "level_text": "see docs/C12.md",
-    "level_note": "see docs/C12.md",
+    "level_text": ("Coq theorems (no axioms) about an executable, panic-faithful model of src/message/writer.rs (every public "
+                   "method, the two-prior-name compression scan, RDATA components, Ttl::from), for ALL operation sequences: the "
+                   "state invariant HEADER_SIZE <= rr_start <= cursor <= available, available + reservations = limit <= |buffer|; "
+                   "the finished message never exceeds the limit in effect; a failed operation leaves every observable field and "
+                   "every octet below the cursor unchanged; and, for every name written under the anchor invariant and the hint "
+                   "contract: no panic, only Truncation, and the octets written decode back to the name given (exactly in "
+                   "case-preserving/disabled mode, modulo ASCII case otherwise). PARTIAL: the message-level round trip, "
+                   "no-spurious-truncation and panic-freedom of whole RR operations are not proved; they are decided on every run "
+                   "by the extracted specification (independent RFC 1035 message decoder + replay of the succeeded operations) "
+                   "evaluated on the implementation's output, after an octet-for-octet differential run model vs. crate."),
+    "level_note": ("Trusted: Coq kernel, ExtrOcamlBasic extraction, the hand-written model's correspondence to the Rust code "
+                   "(differentially tested on ~3000 operation sequences per quick run, whole buffer compared), the regenerated "
+                   "tables. Signing TSIG modes are outside the model. The OPT-TTL defect (extended RCODE >= 2048 lost) is repaired "
+                   "by a fix: commit; the model follows the repaired code and keeps a regression theorem about the old one."),
     "technique": "machine-checked proof in Coq (invariant over all operation sequences) + model/implementation correspondence check + extracted specification decoder as oracle",
 }
